@@ -1,25 +1,28 @@
 package norm
 
-// Local struct bundles: a local variable of struct type that is only ever
-// used field by field (or copied as a whole into / from another such local)
+// Local struct bundles: a local struct that is only ever used field by field
 //
-//	s := summary{oldest: -1}
-//	for … { if n > s.max { s.max = n } … }
-//	out := s
+//	s := summary{oldest: -1}                 op := &syncOp{cm: cm, xr: xr}
+//	for … { if n > s.max { s.max = n } … }   o := op          // receiver of an inlined method
+//	out := s                                 o.patch.SetName(o.cm.GetName())
 //	… out.max …
 //
 // says the same as one local variable per field. go/ssa keeps such a struct in
 // memory (field addresses, loads, stores); the rules follow values, so the
-// bundle is taken apart at source level: every field becomes a local declared
-// where the struct was declared, with the field's own type. A variable that
-// is used in any other way (passed on, returned, address taken, compared,
-// method called on it) is left alone, as is everything copied from or to it.
+// bundle is taken apart at source level: every field becomes a local with the
+// field's own type. Pointers to the struct that are themselves only used for
+// field selection (`o := op`, `p := &s`, the result temporary of an inlined
+// constructor) are names of the same bundle and disappear. A variable that is
+// used in any other way (passed on, returned, compared, reassigned, address
+// of a field taken, a method called on it) is left alone, and so is every
+// other name of its bundle and everything copied from or to it.
 
 import (
 	"fmt"
 	"go/ast"
 	"go/token"
 	"go/types"
+	"sort"
 	"strings"
 
 	"golang.org/x/tools/go/ast/astutil"
@@ -55,18 +58,33 @@ func Scalarise(pkgs []*packages.Package, module string) *Result {
 	return res
 }
 
-type bundle struct {
-	v      *types.Var
+// a cell is one struct object; several variables may name it
+type cell struct {
 	st     *types.Struct
-	def    ast.Stmt // defining statement (in a statement list)
-	defID  *ast.Ident
-	typ    ast.Expr // type expression usable at the definition (nil when defined by copy)
-	from   *types.Var
-	lit    *ast.CompositeLit
+	typ    ast.Expr // type expression valid at the creation site
+	root   *bvar
 	prefix string
-	// copies: other bundles this one is assigned from / to
-	peers []*types.Var
-	bad   string
+	bad    string
+	copies []*cell // cells copied from or to as a whole
+	hoist  bool    // a name is declared before the cell is created: the fields are declared at the top of the function
+}
+
+type bvar struct {
+	v     *types.Var
+	ptr   bool
+	def   ast.Stmt // declaring statement
+	defID *ast.Ident
+	// how it gets its value
+	site   ast.Stmt          // the statement that gives it (def, or the one assignment of a late pointer)
+	lit    *ast.CompositeLit // root: T{…} / &T{…}
+	zero   bool              // root: var s T / new(T)
+	from   *types.Var        // V: copy of another value bundle; P: another name of from's cell
+	addrOf bool              // P: &from
+	single bool              // the site statement has a single left side
+	late   bool              // P declared `var p *T`, given its value by exactly one later assignment
+	nasg   int
+	cell   *cell
+	bad    string
 }
 
 type sroa struct {
@@ -74,133 +92,347 @@ type sroa struct {
 	fn *ast.FuncDecl
 }
 
+func (s *sroa) structOf(t types.Type) *types.Struct {
+	st, _ := t.Underlying().(*types.Struct)
+	if st == nil || st.NumFields() == 0 {
+		return nil
+	}
+	for i := 0; i < st.NumFields(); i++ {
+		f := st.Field(i)
+		if f.Name() == "_" || (!f.Exported() && f.Pkg() != s.pl.pkg.Types) {
+			return nil
+		}
+	}
+	return st
+}
+
+// pseudoLoop: `L: for { …; break L }` without a continue of its own never iterates
+func pseudoLoop(fs *ast.ForStmt, label string) bool {
+	if fs.Init != nil || fs.Cond != nil || fs.Post != nil || label == "" || len(fs.Body.List) == 0 {
+		return false
+	}
+	last, ok := fs.Body.List[len(fs.Body.List)-1].(*ast.BranchStmt)
+	if !ok || last.Tok != token.BREAK || last.Label == nil || last.Label.Name != label {
+		return false
+	}
+	iterates := false
+	var walk func(n ast.Node, nested bool)
+	walk = func(n ast.Node, nested bool) {
+		ast.Inspect(n, func(m ast.Node) bool {
+			if m == n {
+				return true
+			}
+			switch x := m.(type) {
+			case *ast.FuncLit:
+				return false
+			case *ast.ForStmt, *ast.RangeStmt:
+				walk(x, true)
+				return false
+			case *ast.BranchStmt:
+				if x.Tok == token.GOTO || (x.Tok == token.CONTINUE && (x.Label != nil && x.Label.Name == label || x.Label == nil && !nested)) {
+					iterates = true
+				}
+			}
+			return true
+		})
+	}
+	walk(fs.Body, false)
+	return !iterates
+}
+
 func (s *sroa) run() int {
 	info := s.pl.pkg.TypesInfo
 	inList := map[ast.Stmt]bool{}
-	ast.Inspect(s.fn.Body, func(n ast.Node) bool {
-		var l []ast.Stmt
-		switch x := n.(type) {
-		case *ast.BlockStmt:
-			l = x.List
-		case *ast.CaseClause:
-			l = x.Body
-		case *ast.CommClause:
-			l = x.Body
+	// enclosing function body and enclosing real loops of every statement
+	encFn := map[ast.Node]*ast.BlockStmt{}
+	encLoops := map[ast.Node][]ast.Node{}
+	{
+		var fnStack []*ast.BlockStmt
+		var loopStack []ast.Node
+		var stack []ast.Node
+		fnStack = append(fnStack, s.fn.Body)
+		ast.Inspect(s.fn.Body, func(n ast.Node) bool {
+			if n == nil {
+				top := stack[len(stack)-1]
+				stack = stack[:len(stack)-1]
+				switch x := top.(type) {
+				case *ast.FuncLit:
+					fnStack = fnStack[:len(fnStack)-1]
+				case *ast.RangeStmt:
+					loopStack = loopStack[:len(loopStack)-1]
+				case *ast.ForStmt:
+					if len(loopStack) > 0 && loopStack[len(loopStack)-1] == ast.Node(x) {
+						loopStack = loopStack[:len(loopStack)-1]
+					}
+				}
+				return true
+			}
+			switch x := n.(type) {
+			case *ast.FuncLit:
+				fnStack = append(fnStack, x.Body)
+			case *ast.RangeStmt:
+				loopStack = append(loopStack, x)
+			case *ast.ForStmt:
+				label := ""
+				if len(stack) > 0 {
+					if ls, ok := stack[len(stack)-1].(*ast.LabeledStmt); ok {
+						label = ls.Label.Name
+					}
+				}
+				if !pseudoLoop(x, label) {
+					loopStack = append(loopStack, x)
+				}
+			}
+			stack = append(stack, n)
+			if st, ok := n.(ast.Stmt); ok {
+				encFn[st] = fnStack[len(fnStack)-1]
+				encLoops[st] = append([]ast.Node{}, loopStack...)
+			}
+			var l []ast.Stmt
+			switch x := n.(type) {
+			case *ast.BlockStmt:
+				l = x.List
+			case *ast.CaseClause:
+				l = x.Body
+			case *ast.CommClause:
+				l = x.Body
+			}
+			for _, st := range l {
+				inList[st] = true
+			}
+			return true
+		})
+	}
+	vars := map[*types.Var]*bvar{}
+	// classify how b gets its value from rhs
+	classify := func(b *bvar, st *types.Struct, rhs ast.Expr, typ ast.Expr) bool {
+		sameType := func(e ast.Expr) bool {
+			tv, ok := info.Types[e]
+			return ok && types.Identical(tv.Type, b.v.Type())
 		}
-		for _, st := range l {
-			inList[st] = true
+		switch r := rhs.(type) {
+		case nil:
+			if b.ptr || typ == nil {
+				return false
+			}
+			b.zero = true
+			b.cell = &cell{st: st, typ: typ, root: b}
+		case *ast.CompositeLit:
+			if b.ptr || r.Type == nil || !sameType(r) {
+				return false
+			}
+			b.lit = r
+			b.cell = &cell{st: st, typ: r.Type, root: b}
+		case *ast.UnaryExpr:
+			if !b.ptr || r.Op != token.AND || !sameType(r) {
+				return false
+			}
+			switch x := r.X.(type) {
+			case *ast.CompositeLit:
+				if x.Type == nil {
+					return false
+				}
+				b.lit = x
+				b.cell = &cell{st: st, typ: x.Type, root: b}
+			case *ast.Ident:
+				w, _ := info.Uses[x].(*types.Var)
+				if w == nil {
+					return false
+				}
+				b.from, b.addrOf = w, true
+			default:
+				return false
+			}
+		case *ast.CallExpr:
+			fid, _ := r.Fun.(*ast.Ident)
+			if !b.ptr || fid == nil || fid.Name != "new" || len(r.Args) != 1 || !sameType(r) {
+				return false
+			}
+			if _, isBuiltin := info.Uses[fid].(*types.Builtin); !isBuiltin {
+				return false
+			}
+			b.zero = true
+			b.cell = &cell{st: st, typ: r.Args[0], root: b}
+		case *ast.Ident:
+			w, _ := info.Uses[r].(*types.Var)
+			if w == nil || !sameType(r) {
+				return false
+			}
+			b.from = w
+		default:
+			return false
 		}
 		return true
-	})
-	structOf := func(t types.Type) *types.Struct {
-		st, _ := t.Underlying().(*types.Struct)
-		if st == nil || st.NumFields() == 0 {
-			return nil
-		}
-		for i := 0; i < st.NumFields(); i++ {
-			f := st.Field(i)
-			if f.Name() == "_" || (!f.Exported() && f.Pkg() != s.pl.pkg.Types) {
-				return nil
-			}
-		}
-		return st
 	}
-	bundles := map[*types.Var]*bundle{}
-	// candidates by definition form
+	structOfVar := func(v *types.Var) (*types.Struct, bool) {
+		t := v.Type()
+		ptr := false
+		if p, ok := t.(*types.Pointer); ok {
+			t, ptr = p.Elem(), true
+		}
+		return s.structOf(t), ptr
+	}
+	define := func(stmt ast.Stmt, id *ast.Ident, rhs ast.Expr, typ ast.Expr, single bool) {
+		if id == nil || id.Name == "_" || !inList[stmt] {
+			return
+		}
+		v, _ := info.Defs[id].(*types.Var)
+		if v == nil {
+			return
+		}
+		st, ptr := structOfVar(v)
+		if st == nil {
+			return
+		}
+		b := &bvar{v: v, ptr: ptr, def: stmt, defID: id, site: stmt, single: single}
+		if rhs == nil && ptr && typ != nil {
+			b.late = true
+			vars[v] = b
+			return
+		}
+		if classify(b, st, rhs, typ) {
+			vars[v] = b
+		}
+	}
 	ast.Inspect(s.fn.Body, func(n ast.Node) bool {
 		switch x := n.(type) {
 		case *ast.AssignStmt:
-			if x.Tok != token.DEFINE || len(x.Lhs) != 1 || len(x.Rhs) != 1 || !inList[x] {
-				return true
-			}
-			id, _ := x.Lhs[0].(*ast.Ident)
-			if id == nil || id.Name == "_" {
-				return true
-			}
-			v, _ := info.Defs[id].(*types.Var)
-			if v == nil {
-				return true
-			}
-			st := structOf(v.Type())
-			if st == nil {
-				return true
-			}
-			switch r := x.Rhs[0].(type) {
-			case *ast.CompositeLit:
-				if r.Type == nil {
-					return true
-				}
-				bundles[v] = &bundle{v: v, st: st, def: x, defID: id, typ: r.Type, lit: r}
-			case *ast.Ident:
-				if w, _ := info.Uses[r].(*types.Var); w != nil && types.Identical(w.Type(), v.Type()) {
-					bundles[v] = &bundle{v: v, st: st, def: x, defID: id, from: w}
+			if x.Tok == token.DEFINE && len(x.Lhs) == len(x.Rhs) {
+				for i := range x.Lhs {
+					id, _ := x.Lhs[i].(*ast.Ident)
+					define(x, id, x.Rhs[i], nil, len(x.Lhs) == 1)
 				}
 			}
 		case *ast.DeclStmt:
 			gd, _ := x.Decl.(*ast.GenDecl)
-			if gd == nil || gd.Tok != token.VAR || len(gd.Specs) != 1 || !inList[x] {
+			if gd == nil || gd.Tok != token.VAR || len(gd.Specs) != 1 {
 				return true
 			}
 			vs := gd.Specs[0].(*ast.ValueSpec)
-			if len(vs.Names) != 1 || len(vs.Values) > 1 || vs.Names[0].Name == "_" {
-				return true
-			}
-			v, _ := info.Defs[vs.Names[0]].(*types.Var)
-			if v == nil {
-				return true
-			}
-			st := structOf(v.Type())
-			if st == nil {
-				return true
-			}
-			b := &bundle{v: v, st: st, def: x, defID: vs.Names[0], typ: vs.Type}
-			if len(vs.Values) == 1 {
-				switch r := vs.Values[0].(type) {
-				case *ast.CompositeLit:
-					if r.Type == nil {
-						return true
-					}
-					if tv, ok := info.Types[r]; !ok || !types.Identical(tv.Type, v.Type()) {
-						return true // var x Iface = T{}: not a struct variable anyway
-					}
-					b.lit = r
-					if b.typ == nil {
-						b.typ = r.Type
-					}
-				case *ast.Ident:
-					w, _ := info.Uses[r].(*types.Var)
-					if w == nil || !types.Identical(w.Type(), v.Type()) {
-						return true
-					}
-					b.from = w
-				default:
-					return true
+			switch {
+			case len(vs.Values) == 0 && len(vs.Names) == 1:
+				define(x, vs.Names[0], nil, vs.Type, true)
+			case len(vs.Values) == len(vs.Names):
+				for i := range vs.Names {
+					define(x, vs.Names[i], vs.Values[i], vs.Type, len(vs.Names) == 1)
 				}
 			}
-			if b.typ == nil && b.from == nil {
-				return true
-			}
-			bundles[v] = b
 		}
 		return true
 	})
-	if len(bundles) == 0 {
+	if len(vars) == 0 {
 		return 0
 	}
+	// late pointers: their one assignment
+	ast.Inspect(s.fn.Body, func(n ast.Node) bool {
+		as, ok := n.(*ast.AssignStmt)
+		if !ok || as.Tok != token.ASSIGN {
+			return true
+		}
+		for i, l := range as.Lhs {
+			id, _ := l.(*ast.Ident)
+			if id == nil {
+				continue
+			}
+			v, _ := info.Uses[id].(*types.Var)
+			b := vars[v]
+			if b == nil || !b.late {
+				continue
+			}
+			b.nasg++
+			if b.nasg > 1 || len(as.Lhs) != 1 || len(as.Rhs) != 1 || !inList[as] {
+				b.bad = "assigned more than once, or in a multiple assignment"
+				continue
+			}
+			st, _ := structOfVar(v)
+			b.site = as
+			if !classify(b, st, as.Rhs[i], nil) {
+				b.bad = "assigned something that is not a bundle"
+			}
+		}
+		return true
+	})
+	for _, b := range vars {
+		if b.late && b.nasg == 0 {
+			b.bad = "never assigned"
+		}
+	}
+	// names of the same cell; value copies get their own cell
+	for changed := true; changed; {
+		changed = false
+		for _, b := range vars {
+			if b.cell != nil || b.bad != "" || b.from == nil {
+				continue
+			}
+			src := vars[b.from]
+			if src == nil || src.bad != "" {
+				b.bad = "defined from a variable that stays"
+				changed = true
+				continue
+			}
+			if src.cell == nil {
+				continue // not resolved yet
+			}
+			switch {
+			case b.ptr && b.addrOf && !src.ptr, b.ptr && !b.addrOf && src.ptr:
+				b.cell = src.cell
+			case !b.ptr && !src.ptr:
+				b.cell = &cell{st: src.cell.st, root: b}
+				b.cell.copies = append(b.cell.copies, src.cell)
+				src.cell.copies = append(src.cell.copies, b.cell)
+			default:
+				b.bad = "unsupported definition"
+			}
+			changed = true
+		}
+	}
+	for _, b := range vars {
+		if b.cell == nil && b.bad == "" {
+			b.bad = "definition not resolved"
+		}
+		if b.cell != nil && b.cell.root == b && !b.single {
+			b.bad = "created in a multiple assignment"
+		}
+	}
 	// every use must be one of the recognised forms
-	var stack []ast.Node
-	useOf := func(id *ast.Ident) *bundle {
+	useOf := func(id *ast.Ident) *bvar {
 		if v, ok := info.Uses[id].(*types.Var); ok {
-			return bundles[v]
+			return vars[v]
 		}
 		return nil
 	}
-	asBundle := func(e ast.Expr) *bundle {
-		if id, ok := e.(*ast.Ident); ok {
-			return useOf(id)
-		}
-		return nil
+	type pair struct {
+		lhs  ast.Expr
+		tok  token.Token
+		stmt ast.Stmt
+		n    int
 	}
+	rhsPair := func(parent ast.Node, e ast.Expr, stack []ast.Node) (pair, bool) {
+		switch p := parent.(type) {
+		case *ast.AssignStmt:
+			if len(p.Lhs) == len(p.Rhs) {
+				for i := range p.Rhs {
+					if p.Rhs[i] == e {
+						return pair{p.Lhs[i], p.Tok, p, len(p.Lhs)}, true
+					}
+				}
+			}
+		case *ast.ValueSpec:
+			if len(p.Names) == len(p.Values) {
+				for i := range p.Values {
+					if p.Values[i] == e {
+						for j := len(stack) - 1; j >= 0; j-- {
+							if ds, ok := stack[j].(*ast.DeclStmt); ok {
+								return pair{p.Names[i], token.DEFINE, ds, len(p.Names)}, true
+							}
+						}
+					}
+				}
+			}
+		}
+		return pair{}, false
+	}
+	var stack []ast.Node
 	ast.Inspect(s.fn.Body, func(n ast.Node) bool {
 		if n == nil {
 			stack = stack[:len(stack)-1]
@@ -212,10 +444,49 @@ func (s *sroa) run() int {
 			return true
 		}
 		b := useOf(id)
-		if b == nil {
+		if b == nil || b.bad != "" {
 			return true
 		}
 		parent := stack[len(stack)-2]
+		// the target of a whole-value flow: a definition of another bundle name, the one assignment of a late pointer, an assignment to a value bundle, or the blank
+		flowsInto := func(pr pair) string {
+			if !inList[pr.stmt] {
+				return "used outside a statement list"
+			}
+			lid, _ := pr.lhs.(*ast.Ident)
+			if lid == nil {
+				return "flows into something that is not a variable"
+			}
+			if lid.Name == "_" && pr.tok == token.ASSIGN {
+				return ""
+			}
+			var o *bvar
+			if pr.tok == token.DEFINE {
+				if v, _ := info.Defs[lid].(*types.Var); v != nil {
+					o = vars[v]
+				}
+			} else {
+				o = useOf(lid)
+				switch {
+				case o == nil:
+				case o.ptr:
+					if !o.late || o.site != pr.stmt {
+						o = nil
+					}
+				case b.ptr:
+					o = nil
+				case pr.n != 1:
+					return "copied in a multiple assignment"
+				default:
+					o.cell.copies = append(o.cell.copies, b.cell)
+					b.cell.copies = append(b.cell.copies, o.cell)
+				}
+			}
+			if o == nil || o.bad != "" {
+				return "flows into a variable that stays"
+			}
+			return ""
+		}
 		switch p := parent.(type) {
 		case *ast.SelectorExpr:
 			if p.X != ast.Expr(id) {
@@ -227,7 +498,7 @@ func (s *sroa) run() int {
 				b.bad = "method or promoted field used"
 				return true
 			}
-			// &s.f (through any chain of selectors / indexes) lets a field escape
+			// &x.f (through any chain of selectors / indexes) lets a field escape
 			for i := len(stack) - 2; i > 0; i-- {
 				switch a := stack[i-1].(type) {
 				case *ast.SelectorExpr, *ast.IndexExpr, *ast.ParenExpr, *ast.SliceExpr:
@@ -239,102 +510,162 @@ func (s *sroa) run() int {
 				}
 				break
 			}
-		case *ast.AssignStmt:
-			switch {
-			case len(p.Lhs) == 1 && len(p.Rhs) == 1 && p.Lhs[0] == ast.Expr(id) && p.Tok == token.ASSIGN:
-				if o := asBundle(p.Rhs[0]); o != nil && types.Identical(o.v.Type(), b.v.Type()) {
-					b.peers = append(b.peers, o.v)
-				} else if cl, ok := p.Rhs[0].(*ast.CompositeLit); ok && cl.Type != nil && inList[p] {
-					if tv, ok := info.Types[cl]; !ok || !types.Identical(tv.Type, b.v.Type()) {
-						b.bad = "assigned a literal of another type"
+		case *ast.UnaryExpr:
+			if p.Op != token.AND || b.ptr || len(stack) < 3 {
+				b.bad = "used as a whole"
+				return true
+			}
+			pr, ok := rhsPair(stack[len(stack)-3], p, stack)
+			if !ok {
+				b.bad = "address taken"
+				return true
+			}
+			if why := flowsInto(pr); why != "" {
+				b.bad = why
+			}
+		case *ast.AssignStmt, *ast.ValueSpec:
+			if as, ok := p.(*ast.AssignStmt); ok {
+				isLhs := false
+				for i, l := range as.Lhs {
+					if l != ast.Expr(id) {
+						continue
 					}
-				} else {
-					b.bad = "assigned from something that is not a bundle"
-				}
-				if !inList[p] {
-					b.bad = "assigned outside a statement list"
-				}
-			case len(p.Lhs) == 1 && len(p.Rhs) == 1 && p.Rhs[0] == ast.Expr(id):
-				if lid, ok := p.Lhs[0].(*ast.Ident); ok && lid.Name == "_" && p.Tok == token.ASSIGN {
-					break
-				}
-				var o *bundle
-				if lid, ok := p.Lhs[0].(*ast.Ident); ok {
-					if p.Tok == token.DEFINE {
-						if v, _ := info.Defs[lid].(*types.Var); v != nil {
-							o = bundles[v]
+					isLhs = true
+					switch {
+					case b.late && b.site == ast.Stmt(as):
+						// its one assignment
+					case as.Tok != token.ASSIGN || b.ptr || len(as.Lhs) != 1 || len(as.Rhs) != 1 || !inList[as]:
+						b.bad = "reassigned"
+					default:
+						switch r := as.Rhs[i].(type) {
+						case *ast.Ident:
+							if o := useOf(r); o == nil || o.ptr {
+								b.bad = "assigned from something that is not a bundle"
+							}
+						case *ast.CompositeLit:
+							if tv, ok := info.Types[r]; !ok || r.Type == nil || !types.Identical(tv.Type, b.v.Type()) {
+								b.bad = "assigned a literal of another type"
+							}
+						default:
+							b.bad = "assigned from something that is not a bundle"
 						}
-					} else {
-						o = useOf(lid)
 					}
 				}
-				if o == nil || !types.Identical(o.v.Type(), b.v.Type()) || !inList[p] {
-					b.bad = "copied into something that is not a bundle"
-				} else {
-					b.peers = append(b.peers, o.v)
-				}
-			default:
-				b.bad = "used in a multiple assignment"
-			}
-		case *ast.ValueSpec:
-			var o *bundle
-			if len(p.Names) == 1 && len(p.Values) == 1 && p.Values[0] == ast.Expr(id) {
-				if v, _ := info.Defs[p.Names[0]].(*types.Var); v != nil {
-					o = bundles[v]
+				if isLhs {
+					return true
 				}
 			}
-			if o == nil {
-				b.bad = "copied into something that is not a bundle"
-			} else {
-				b.peers = append(b.peers, o.v)
+			pr, ok := rhsPair(parent, id, stack)
+			if !ok {
+				b.bad = "used in an unbalanced assignment"
+				return true
+			}
+			if why := flowsInto(pr); why != "" {
+				b.bad = why
 			}
 		default:
 			b.bad = fmt.Sprintf("used as a whole (%T)", parent)
 		}
 		return true
 	})
-	// a bundle defined by copy needs its source; rejection spreads along copies
-	for changed := true; changed; {
-		changed = false
-		for _, b := range bundles {
-			if b.bad != "" {
-				continue
+	// a cell one of whose names is declared before the cell is created: its
+	// fields are declared at the top of the function. That needs the creation
+	// and all names in one function body, a type expression that means the same
+	// there, and no loop around the creation that a name outlives.
+	hoistable := func(e ast.Expr) bool {
+		ok := true
+		ast.Inspect(e, func(n ast.Node) bool {
+			if id, isID := n.(*ast.Ident); isID {
+				o := info.Uses[id]
+				if o == nil {
+					return true // field names of a struct type expression
+				}
+				if _, isPkg := o.(*types.PkgName); isPkg {
+					return true
+				}
+				if o.Parent() != types.Universe && o.Parent() != s.pl.pkg.Types.Scope() {
+					ok = false
+				}
 			}
-			if b.from != nil && (bundles[b.from] == nil || bundles[b.from].bad != "") {
-				b.bad = "copied from a variable that stays"
-				changed = true
-				continue
+			return true
+		})
+		return ok
+	}
+	byCell := map[*cell][]*bvar{}
+	for _, b := range vars {
+		if b.cell != nil {
+			byCell[b.cell] = append(byCell[b.cell], b)
+		}
+	}
+	for c, names := range byCell {
+		for _, b := range names {
+			if b.late {
+				c.hoist = true
 			}
-			for _, o := range b.peers {
-				if bundles[o] == nil || bundles[o].bad != "" {
-					b.bad = "copied from or to a variable that stays"
-					changed = true
-					break
+		}
+		if !c.hoist {
+			continue
+		}
+		rootFn := encFn[c.root.site]
+		if c.typ == nil || !hoistable(c.typ) {
+			c.bad = "type not nameable at the top of the function"
+			continue
+		}
+		for _, b := range names {
+			if encFn[b.def] != rootFn {
+				// declared in another function body than the creation (a closure creating what its parent names)
+				inside := false
+				ast.Inspect(rootFn, func(n ast.Node) bool {
+					if n == ast.Node(b.def) {
+						inside = true
+					}
+					return !inside
+				})
+				if !inside {
+					c.bad = "created in a closure, named outside it"
+				}
+			}
+			for _, l := range encLoops[c.root.site] {
+				within := false
+				ast.Inspect(l, func(n ast.Node) bool {
+					if n == ast.Node(b.def) {
+						within = true
+					}
+					return !within
+				})
+				if !within {
+					c.bad = "created in a loop that a name of it outlives"
 				}
 			}
 		}
 	}
-	n := 0
-	for _, b := range bundles {
-		if b.bad == "" {
-			n++
-			b.prefix = s.pl.fresh("s") + b.v.Name()
+	// rejection spreads over the names of a cell and along whole-value copies
+	for changed := true; changed; {
+		changed = false
+		for _, b := range vars {
+			if b.cell == nil {
+				continue
+			}
+			if b.bad != "" && b.cell.bad == "" {
+				b.cell.bad = b.bad
+				changed = true
+			}
+			if b.bad == "" && b.cell.bad != "" {
+				b.bad = b.cell.bad
+				changed = true
+			}
+			if b.bad == "" && b.from != nil && (vars[b.from] == nil || vars[b.from].bad != "") {
+				b.bad = "defined from a variable that stays"
+				changed = true
+			}
+			for _, o := range b.cell.copies {
+				if o.bad != "" && b.cell.bad == "" {
+					b.cell.bad = "copied from or to a variable that stays"
+					changed = true
+				}
+			}
 		}
 	}
-	if n == 0 {
-		return 0
-	}
-	good := func(v *types.Var) *bundle {
-		if b := bundles[v]; b != nil && b.bad == "" {
-			return b
-		}
-		return nil
-	}
-	name := func(b *bundle, i int) *ast.Ident { return ast.NewIdent(b.prefix + "_" + b.st.Field(i).Name()) }
-	zero := func(typ ast.Expr, st *types.Struct, i int) ast.Expr {
-		return &ast.SelectorExpr{X: &ast.ParenExpr{X: &ast.CompositeLit{Type: s.pl.clone(typ).(ast.Expr)}}, Sel: ast.NewIdent(st.Field(i).Name())}
-	}
-	// values of a literal per field (nil: omitted)
 	litVals := func(st *types.Struct, cl *ast.CompositeLit) ([]ast.Expr, bool) {
 		vals := make([]ast.Expr, st.NumFields())
 		for pos, e := range cl.Elts {
@@ -359,180 +690,280 @@ func (s *sroa) run() int {
 		}
 		return vals, true
 	}
-	for _, b := range bundles {
-		if b.bad == "" && b.lit != nil {
-			if _, ok := litVals(b.st, b.lit); !ok {
-				b.bad = "literal not understood"
-				n--
+	var order []*bvar
+	for _, b := range vars {
+		order = append(order, b)
+	}
+	sort.Slice(order, func(i, j int) bool { return order[i].defID.Pos() < order[j].defID.Pos() })
+	n := 0
+	for _, b := range order {
+		if b.bad != "" || b.cell.root != b || b.cell.bad != "" {
+			continue
+		}
+		if b.lit != nil {
+			if _, ok := litVals(b.cell.st, b.lit); !ok {
+				b.cell.bad = "literal not understood"
+				continue
 			}
 		}
+		n++
+		b.cell.prefix = s.pl.fresh("s") + b.v.Name()
 	}
 	if n == 0 {
 		return 0
 	}
-	parallel := func(b *bundle, rhs []ast.Expr, tok token.Token) ast.Stmt {
-		as := &ast.AssignStmt{Tok: tok}
-		for i := 0; i < b.st.NumFields(); i++ {
-			as.Lhs = append(as.Lhs, name(b, i))
+	good := func(v *types.Var) *bvar {
+		if b := vars[v]; b != nil && b.bad == "" && b.cell != nil && b.cell.bad == "" && b.cell.prefix != "" {
+			return b
 		}
-		as.Rhs = rhs
-		return as
+		return nil
 	}
-	keep := func(b *bundle) ast.Stmt {
-		as := &ast.AssignStmt{Tok: token.ASSIGN}
-		for i := 0; i < b.st.NumFields(); i++ {
-			as.Lhs = append(as.Lhs, ast.NewIdent("_"))
-			as.Rhs = append(as.Rhs, name(b, i))
-		}
-		return as
+	name := func(c *cell, i int) *ast.Ident { return ast.NewIdent(c.prefix + "_" + c.st.Field(i).Name()) }
+	zero := func(typ ast.Expr, st *types.Struct, i int) ast.Expr {
+		return &ast.SelectorExpr{X: &ast.ParenExpr{X: &ast.CompositeLit{Type: s.pl.clone(typ).(ast.Expr)}}, Sel: ast.NewIdent(st.Field(i).Name())}
 	}
-	fieldsOf := func(b *bundle) []ast.Expr {
+	fieldsOf := func(c *cell) []ast.Expr {
 		var out []ast.Expr
-		for i := 0; i < b.st.NumFields(); i++ {
-			out = append(out, name(b, i))
+		for i := 0; i < c.st.NumFields(); i++ {
+			out = append(out, name(c, i))
 		}
 		return out
 	}
-	// define b at its definition: zero values of the fields' own types, then the literal's values
-	defStmts := func(b *bundle) []ast.Stmt {
-		var out []ast.Stmt
-		if b.from != nil {
-			out = append(out, parallel(b, fieldsOf(good(b.from)), token.DEFINE), keep(b))
-			return out
-		}
+	zeros := func(c *cell) []ast.Expr {
 		var zs []ast.Expr
-		for i := 0; i < b.st.NumFields(); i++ {
-			zs = append(zs, zero(b.typ, b.st, i))
+		for i := 0; i < c.st.NumFields(); i++ {
+			zs = append(zs, zero(c.typ, c.st, i))
 		}
-		out = append(out, parallel(b, zs, token.DEFINE), keep(b))
-		if b.lit != nil {
-			vals, _ := litVals(b.st, b.lit)
-			as := &ast.AssignStmt{Tok: token.ASSIGN}
-			// in the order written
-			for _, e := range b.lit.Elts {
-				for i, v := range vals {
-					val := e
-					if kv, ok := e.(*ast.KeyValueExpr); ok {
-						val = kv.Value
-					}
-					if v == val {
-						as.Lhs = append(as.Lhs, name(b, i))
-						as.Rhs = append(as.Rhs, v)
-					}
+		return zs
+	}
+	parallel := func(c *cell, rhs []ast.Expr, tok token.Token) ast.Stmt {
+		return &ast.AssignStmt{Lhs: fieldsOf(c), Tok: tok, Rhs: rhs}
+	}
+	keep := func(c *cell) ast.Stmt {
+		as := &ast.AssignStmt{Tok: token.ASSIGN}
+		for i := 0; i < c.st.NumFields(); i++ {
+			as.Lhs = append(as.Lhs, ast.NewIdent("_"))
+			as.Rhs = append(as.Rhs, name(c, i))
+		}
+		return as
+	}
+	// the literal's values in the order written, onto the cell's fields
+	litAssign := func(c *cell, cl *ast.CompositeLit, rest bool) *ast.AssignStmt {
+		vals, _ := litVals(c.st, cl)
+		as := &ast.AssignStmt{Tok: token.ASSIGN}
+		seen := map[int]bool{}
+		for _, e := range cl.Elts {
+			val := e
+			if kv, ok := e.(*ast.KeyValueExpr); ok {
+				val = kv.Value
+			}
+			for i, v := range vals {
+				if v == val && !seen[i] {
+					as.Lhs = append(as.Lhs, name(c, i))
+					as.Rhs = append(as.Rhs, v)
+					seen[i] = true
 				}
 			}
-			if len(as.Lhs) > 0 {
+		}
+		if rest {
+			for i := 0; i < c.st.NumFields(); i++ {
+				if !seen[i] {
+					as.Lhs = append(as.Lhs, name(c, i))
+					as.Rhs = append(as.Rhs, zero(cl.Type, c.st, i))
+				}
+			}
+		}
+		return as
+	}
+	// statements that create a cell at its root's site
+	create := func(b *bvar) []ast.Stmt {
+		c := b.cell
+		if b.from != nil { // value copy
+			return []ast.Stmt{parallel(c, fieldsOf(good(b.from).cell), token.DEFINE), keep(c)}
+		}
+		var out []ast.Stmt
+		if c.hoist {
+			out = append(out, parallel(c, zeros(c), token.ASSIGN)) // a fresh object every time the site runs
+		} else {
+			out = append(out, parallel(c, zeros(c), token.DEFINE), keep(c))
+		}
+		if b.lit != nil {
+			if as := litAssign(c, b.lit, false); len(as.Lhs) > 0 {
 				out = append(out, as)
 			}
 		}
 		return out
 	}
-	// statements first (the new statements keep the original value expressions),
-	// then every field selector, wherever it ended up
-	defer astutil.Apply(s.fn.Body, func(c *astutil.Cursor) bool {
-		if x, ok := c.Node().(*ast.SelectorExpr); ok {
-			if id, ok := x.X.(*ast.Ident); ok {
+	// hoisted declarations, per function body
+	hoisted := map[*ast.BlockStmt][]ast.Stmt{}
+	for _, b := range order {
+		if good(b.v) != nil && b.cell.root == b && b.cell.hoist {
+			fb := encFn[b.site]
+			hoisted[fb] = append(hoisted[fb], parallel(b.cell, zeros(b.cell), token.DEFINE), keep(b.cell))
+		}
+	}
+	siteOf := map[ast.Stmt][]*bvar{}
+	declOf := map[ast.Stmt][]*bvar{}
+	for _, b := range order {
+		if good(b.v) != nil {
+			siteOf[b.site] = append(siteOf[b.site], b)
+			if b.late {
+				declOf[b.def] = append(declOf[b.def], b)
+			}
+		}
+	}
+	isGoodIdent := func(e ast.Expr) *bvar {
+		switch x := e.(type) {
+		case *ast.Ident:
+			if v, _ := info.Uses[x].(*types.Var); v != nil {
+				return good(v)
+			}
+		case *ast.UnaryExpr:
+			if id, ok := x.X.(*ast.Ident); ok && x.Op == token.AND {
 				if v, _ := info.Uses[id].(*types.Var); v != nil {
-					if b := good(v); b != nil {
-						si := info.Selections[x]
-						c.Replace(name(b, si.Index()[0]))
-						return false
-					}
+					return good(v)
 				}
 			}
 		}
-		return true
-	}, nil)
-	astutil.Apply(s.fn.Body, func(c *astutil.Cursor) bool {
-		switch x := c.Node().(type) {
-		case *ast.DeclStmt:
-			if vs, ok := x.Decl.(*ast.GenDecl).Specs[0].(*ast.ValueSpec); ok && len(vs.Names) == 1 {
-				if v, _ := info.Defs[vs.Names[0]].(*types.Var); v != nil {
-					if b := good(v); b != nil && b.def == ast.Stmt(x) {
-						ds := defStmts(b)
-						for _, d := range ds[:len(ds)-1] {
-							c.InsertBefore(d)
-						}
-						c.Replace(ds[len(ds)-1])
-						return true
-					}
-				}
-			}
-		case *ast.AssignStmt:
-			if len(x.Lhs) != 1 || len(x.Rhs) != 1 {
-				return true
-			}
-			lid, _ := x.Lhs[0].(*ast.Ident)
-			if lid == nil {
-				return true
-			}
-			if x.Tok == token.DEFINE {
-				if v, _ := info.Defs[lid].(*types.Var); v != nil {
-					if b := good(v); b != nil && b.def == ast.Stmt(x) {
-						ds := defStmts(b)
-						for _, d := range ds[:len(ds)-1] {
-							c.InsertBefore(d)
-						}
-						c.Replace(ds[len(ds)-1])
-						return true
-					}
-				}
-				return true
-			}
-			if lid.Name == "_" {
-				if rid, ok := x.Rhs[0].(*ast.Ident); ok {
-					if v, _ := info.Uses[rid].(*types.Var); v != nil {
+		return nil
+	}
+	replaceWith := func(c *astutil.Cursor, ds []ast.Stmt) {
+		for _, d := range ds[:len(ds)-1] {
+			c.InsertBefore(d)
+		}
+		c.Replace(ds[len(ds)-1])
+	}
+	// statements first (the new statements keep the original value expressions),
+	// then every field selector, wherever it ended up, then the hoisted declarations
+	defer func() {
+		astutil.Apply(s.fn.Body, func(c *astutil.Cursor) bool {
+			if x, ok := c.Node().(*ast.SelectorExpr); ok {
+				if id, ok := x.X.(*ast.Ident); ok {
+					if v, _ := info.Uses[id].(*types.Var); v != nil {
 						if b := good(v); b != nil {
-							c.Replace(keep(b))
+							si := info.Selections[x]
+							c.Replace(name(b.cell, si.Index()[0]))
 							return false
 						}
 					}
 				}
+			}
+			return true
+		}, nil)
+		for fb, ds := range hoisted {
+			fb.List = append(append([]ast.Stmt{}, ds...), fb.List...)
+		}
+	}()
+	astutil.Apply(s.fn.Body, func(c *astutil.Cursor) bool {
+		switch x := c.Node().(type) {
+		case *ast.DeclStmt:
+			vs, _ := x.Decl.(*ast.GenDecl).Specs[0].(*ast.ValueSpec)
+			if vs == nil {
 				return true
 			}
-			v, _ := info.Uses[lid].(*types.Var)
-			if v == nil {
+			if len(declOf[x]) > 0 { // `var p *T` of a late pointer: the name disappears
+				c.Delete()
+				return false
+			}
+			bs := siteOf[x]
+			if len(bs) == 0 {
 				return true
 			}
-			b := good(v)
-			if b == nil {
+			if len(bs) == 1 && bs[0].cell.root == bs[0] {
+				replaceWith(c, create(bs[0]))
 				return true
 			}
-			switch r := x.Rhs[0].(type) {
-			case *ast.Ident:
-				if w, _ := info.Uses[r].(*types.Var); w != nil && good(w) != nil {
-					c.Replace(parallel(b, fieldsOf(good(w)), token.ASSIGN))
-					return false
+			var names []*ast.Ident
+			var vals []ast.Expr
+			for i, nm := range vs.Names {
+				drop := false
+				for _, b := range bs {
+					if b.defID == nm && b.cell.root != b {
+						drop = true
+					}
 				}
-			case *ast.CompositeLit:
-				vals, ok := litVals(b.st, r)
-				if !ok {
+				if !drop {
+					names = append(names, nm)
+					if i < len(vs.Values) {
+						vals = append(vals, vs.Values[i])
+					}
+				}
+			}
+			if len(names) == 0 {
+				c.Delete()
+				return false
+			}
+			vs.Names, vs.Values = names, vals
+		case *ast.AssignStmt:
+			if len(x.Lhs) != len(x.Rhs) {
+				return true
+			}
+			if bs := siteOf[x]; len(bs) == 1 && len(x.Lhs) == 1 {
+				if bs[0].cell.root == bs[0] {
+					replaceWith(c, create(bs[0]))
 					return true
 				}
-				// the literal's values in the order written, then the fields it leaves at zero
-				as := &ast.AssignStmt{Tok: token.ASSIGN}
-				seen := map[int]bool{}
-				for _, e := range r.Elts {
-					val := e
-					if kv, ok := e.(*ast.KeyValueExpr); ok {
-						val = kv.Value
-					}
-					for i, vv := range vals {
-						if vv == val {
-							as.Lhs = append(as.Lhs, name(b, i))
-							as.Rhs = append(as.Rhs, vv)
-							seen[i] = true
+				if bs[0].late { // another name of an existing cell
+					c.Delete()
+					return false
+				}
+			}
+			// whole-value assignment to a value bundle
+			if x.Tok == token.ASSIGN && len(x.Lhs) == 1 {
+				if lid, ok := x.Lhs[0].(*ast.Ident); ok && lid.Name != "_" {
+					if v, _ := info.Uses[lid].(*types.Var); v != nil {
+						if b := good(v); b != nil && !b.ptr {
+							switch r := x.Rhs[0].(type) {
+							case *ast.Ident:
+								if o := isGoodIdent(r); o != nil {
+									c.Replace(parallel(b.cell, fieldsOf(o.cell), token.ASSIGN))
+									return false
+								}
+							case *ast.CompositeLit:
+								c.Replace(litAssign(b.cell, r, true))
+								return true
+							}
 						}
 					}
 				}
-				for i := 0; i < b.st.NumFields(); i++ {
-					if !seen[i] {
-						as.Lhs = append(as.Lhs, name(b, i))
-						as.Rhs = append(as.Rhs, zero(r.Type, b.st, i))
+			}
+			// other names of a cell, and blank uses, drop out of the statement
+			var lhs, rhs []ast.Expr
+			for i := range x.Lhs {
+				drop := false
+				if lid, ok := x.Lhs[i].(*ast.Ident); ok {
+					if x.Tok == token.DEFINE {
+						if v, _ := info.Defs[lid].(*types.Var); v != nil {
+							if b := good(v); b != nil && b.cell.root != b {
+								drop = true
+							}
+						}
+					} else if lid.Name == "_" && isGoodIdent(x.Rhs[i]) != nil {
+						drop = true
 					}
 				}
-				c.Replace(as)
+				if !drop {
+					lhs, rhs = append(lhs, x.Lhs[i]), append(rhs, x.Rhs[i])
+				}
+			}
+			if len(lhs) == len(x.Lhs) {
 				return true
+			}
+			if len(lhs) == 0 {
+				c.Delete()
+				return false
+			}
+			x.Lhs, x.Rhs = lhs, rhs
+			if x.Tok == token.DEFINE {
+				allBlank := true
+				for _, l := range lhs {
+					if id, ok := l.(*ast.Ident); !ok || id.Name != "_" {
+						allBlank = false
+					}
+				}
+				if allBlank {
+					x.Tok = token.ASSIGN
+				}
 			}
 		}
 		return true
